@@ -57,6 +57,18 @@ CONFIGS = {
         'flags': '-O1 -D_GLIBCXX_ASSERTIONS',
         'env': {},
     },
+    # coverage-guided histories (thorough tier of the history harnesses): clang 14 libFuzzer + ASan/UBSan; the harness
+    # is compiled with -DVF_FUZZ so that every vf::rng reads the fuzzer's byte string (header-only code paths only,
+    # no fcppt library is linked)
+    'fuzz': {
+        'cxx': 'clang++-14',
+        'libcfg': 'plain',
+        'flags': '-O1 -fsanitize=fuzzer,address,undefined -fno-sanitize-recover=all -fno-sanitize=object-size '
+                 '-D_GLIBCXX_ASSERTIONS -DVF_FUZZ',
+        'env': {'ASAN_OPTIONS': 'abort_on_error=1:detect_leaks=1:detect_stack_use_after_return=1:quarantine_size_mb=8:'
+                                'allocator_may_return_null=1',
+                'UBSAN_OPTIONS': 'abort_on_error=1:print_stacktrace=1'},
+    },
 }
 
 
@@ -77,7 +89,7 @@ def lib_root(cfg):
 class Harness:
     def __init__(self, name, src=None, cfg='asan', libs=('core',), parts=16, args=(),
                  thorough_parts=None, extra_flags='', tiers=('quick', 'thorough'), runner=None,
-                 alarm=None, gen=None, thorough_cfg=None, slices=0, run_tier=None):
+                 alarm=None, gen=None, thorough_cfg=None, slices=0, run_tier=None, fuzz_runs=200000, fuzz_len=384):
         self.name = name
         self.src = list(src) if src else [name + '.cpp']
         self.cfg = cfg
@@ -93,6 +105,8 @@ class Harness:
         self.thorough_cfg = thorough_cfg
         self.slices = slices  # >0: compile the source `slices` times with -DVF_SLICE=i plus once with -DVF_SLICE=-1
         self.run_tier = run_tier  # workload size handed to the binary when it differs from the tier of the check
+        self.fuzz_runs = fuzz_runs  # runner='libfuzzer': executions per partition (each partition is an independent fuzzer)
+        self.fuzz_len = fuzz_len
 
     def for_tier(self, tier):
         if tier == 'thorough' and self.thorough_cfg and self.thorough_cfg != self.cfg:
@@ -292,7 +306,57 @@ def limit_resources():
     resource.setrlimit(resource.RLIMIT_CORE, (0, 0))
 
 
+def run_fuzz_part(h, tier, seed, part, nparts, rundir):
+    """One independent libFuzzer process: bounded by executions, not by time."""
+    logf = os.path.join(rundir, '%s.%d.0.log' % (h.name, part))
+    corpus = os.path.join(rundir, 'corpus_%s_%d' % (h.name, part))
+    os.makedirs(corpus, exist_ok=True)
+    prefix = os.path.join(rundir, 'artifact_%s_%d_' % (h.name, part))
+    cmd = [exe_path(h), '-runs=%d' % h.fuzz_runs, '-max_len=%d' % h.fuzz_len, '-len_control=0',
+           '-seed=%d' % ((int(seed) * 1000003 + part * 7919 + 1) % 2147483647), '-timeout=120', '-rss_limit_mb=4096',
+           '-print_final_stats=1', '-artifact_prefix=' + prefix, corpus]
+    env = dict(os.environ)
+    env.update(CONFIGS[h.cfg]['env'])
+    env['LC_ALL'] = 'C.utf8'
+    t0 = time.time()
+    with open(logf, 'w') as lf:
+        try:
+            p = subprocess.run(cmd, stdout=lf, stderr=subprocess.STDOUT, env=env, timeout=7200,
+                               preexec_fn=limit_resources, cwd=rundir)
+            rc = p.returncode
+        except subprocess.TimeoutExpired:
+            rc = -999
+    return {'h': h, 'part': part, 'nparts': nparts, 'rc': rc, 'out': logf + '.none', 'log': logf, 'cmd': cmd,
+            'wall': time.time() - t0, 'attempt': 0, 'artifact_prefix': prefix}
+
+
+def parse_fuzz_log(path):
+    execs = cov = ft = corp = 0
+    key = artifact = None
+    detail = ''
+    try:
+        text = open(path, errors='replace').read()
+    except OSError:
+        text = ''
+    for line in text.splitlines():
+        m = re.match(r'#(\d+)\s+\S+\s+cov: (\d+) ft: (\d+) corp: (\d+)', line)
+        if m:
+            execs, cov, ft, corp = max(execs, int(m.group(1))), int(m.group(2)), int(m.group(3)), int(m.group(4))
+        m = re.match(r'stat::number_of_executed_units: (\d+)', line)
+        if m:
+            execs = int(m.group(1))
+        m = re.match(r'VF-VIOLATION key=(\S+) (.*)', line)
+        if m and key is None:
+            key, detail = m.group(1), m.group(2)
+        m = re.search(r'Test unit written to (\S+)', line)
+        if m:
+            artifact = m.group(1)
+    return execs, cov, ft, corp, key, detail, artifact, text
+
+
 def run_part(h, tier, seed, part, nparts, rundir, frm=0, only=None, attempt=0, alarm=None):
+    if h.runner == 'libfuzzer':
+        return run_fuzz_part(h, tier, seed, part, nparts, rundir)
     out = os.path.join(rundir, '%s.%d.%d.jsonl' % (h.name, part, attempt))
     logf = os.path.join(rundir, '%s.%d.%d.log' % (h.name, part, attempt))
     cmd = [exe_path(h), '--tier', h.run_tier or tier, '--seed', str(seed), '--part', '%d/%d' % (part, nparts), '--out', out]
@@ -421,6 +485,34 @@ def check(prop, tier, seed):
     def handle(res, depth=0):
         """Process one finished partition; returns list of follow-up results."""
         h = res['h']
+        if h.runner == 'libfuzzer':
+            execs, cov_e, ft, corp, key, detail, artifact, text = parse_fuzz_log(res['log'])
+            res['stats'] = {'evaluations': execs,
+                            'counters': {'fuzz/%s/executions' % h.name: execs, 'max/fuzz/%s/coverage-edges' % h.name: cov_e,
+                                         'max/fuzz/%s/features' % h.name: ft, 'fuzz/%s/corpus-units' % h.name: corp},
+                            'required': ['fuzz/%s/executions' % h.name], 'samples': [], 'observations': []}
+            if res['rc'] == 0:
+                return
+            if res['rc'] == -999:
+                inconclusive.append('%s part %d: driver wall-clock watchdog fired' % (h.name, res['part']))
+                return
+            kind, tail = sanitizer_kind(res['log'])
+            if key is None:
+                if 'ALARM: working on the last Unit' in text or 'libFuzzer: timeout' in text:
+                    kind = 'hang'
+                key = 'fuzz/' + kind
+            else:
+                kind = 'mismatch'
+            saved = None
+            if artifact and os.path.exists(artifact):
+                adir = os.path.join(VERIF, 'replays', pid)
+                os.makedirs(adir, exist_ok=True)
+                saved = os.path.join(adir, '%s-%s' % (h.name, os.path.basename(artifact).replace(os.path.basename(res['artifact_prefix']), '')))
+                shutil.copyfile(artifact, saved)
+            violations.append({'key': '%s:%s' % (h.name, key), 'kind': kind, 'entry': 'fuzz', 'case': detail[:2000] or '(libFuzzer input, see replay)',
+                               'detail': tail[-3000:], 'harness': h.name, 'part': res['part'], 'nparts': res['nparts'], 'idx': 0,
+                               'replay_argv': [saved or artifact or '(no artifact)']})
+            return
         stats, viols, witness, after_stats = parse_out(res['out'])
         res['stats'] = stats
         for v in viols:
